@@ -876,8 +876,13 @@ type InvScenario struct {
 	// EmptySlice: with no callbacks the Callbacks field is an empty, non-nil slice (what an owner is left with
 	// after unregistering its last callback, or after make([]..., 0, n)) instead of nil. Nothing is registered
 	// either way.
-	EmptySlice bool        `json:"empty_slice,omitempty"`
-	Clients    [][]InvCall `json:"clients"`
+	EmptySlice bool `json:"empty_slice,omitempty"`
+	// Late: callbacks that the application registers while the clients are already calling Invalidate, each
+	// one under the Invalidator's own (embedded, exported) mutex: i.Lock(); i.Callbacks = append(...); i.Unlock().
+	// LateSleepNs[j] is the pause before the j-th registration. CallbackSleep covers them too.
+	Late        int         `json:"late,omitempty"`
+	LateSleepNs []int64     `json:"late_sleep_ns,omitempty"`
+	Clients     [][]InvCall `json:"clients"`
 }
 
 func genC17(r *rand.Rand, _ int, _ string) *Scenario {
@@ -901,6 +906,15 @@ func genC17(r *rand.Rand, _ int, _ string) *Scenario {
 
 	if iv.Callbacks == 0 {
 		iv.EmptySlice = chance(r, 0.5)
+	}
+
+	if chance(r, 0.2) {
+		iv.Late = 1 + r.IntN(2)
+
+		for j := 0; j < iv.Late; j++ {
+			iv.LateSleepNs = append(iv.LateSleepNs, pick(r, int64(0), 0, 1, si/2, si+1))
+			iv.CallbackSleep = append(iv.CallbackSleep, pick(r, int64(0), 0, 1, si/2))
+		}
 	}
 
 	if chance(r, 0.3) && iv.Callbacks > 0 {
@@ -963,10 +977,8 @@ func runInvalidator(e *env) {
 		i.Callbacks = make([]func(context.Context), 0, 2)
 	}
 
-	for c := 0; c < sc.Callbacks; c++ {
-		c := c
-
-		i.Callbacks = append(i.Callbacks, func(_ context.Context) {
+	mkCB := func(c int) func(context.Context) {
+		return func(_ context.Context) {
 			rec := cur[e.s.CurID()]
 			cb := cbRec{idx: c, enter: e.s.NextSeq(), enterT: time.Now().UnixNano()}
 			e.logf("callback %d enter", c)
@@ -993,7 +1005,59 @@ func runInvalidator(e *env) {
 			if rec != nil {
 				rec.cbs = append(rec.cbs, cb)
 			}
+		}
+	}
+
+	for c := 0; c < sc.Callbacks; c++ {
+		i.Callbacks = append(i.Callbacks, mkCB(c))
+	}
+
+	// registrations at run time
+	type regRec struct{ start, done uint64 }
+
+	var regs []regRec
+
+	if sc.Late > 0 {
+		e.s.Spawn("registrar", func() {
+			for j := 0; j < sc.Late; j++ {
+				zs.Yield("op")
+
+				if d := sc.LateSleepNs[j]; d > 0 {
+					zs.Sleep(dur(d))
+				}
+
+				const lbl = "application registers a callback under the Invalidator's own mutex"
+
+				rr := regRec{start: e.s.NextSeq()}
+
+				zs.MuLock("registrar", i)
+				*zs.W(&i.Callbacks, lbl) = zs.Append(lbl, i.Callbacks, mkCB(sc.Callbacks+j))
+				zs.MuUnlock("registrar", i)
+
+				rr.done = e.s.NextSeq()
+				regs = append(regs, rr)
+
+				out.fault("callback_registered_at_run_time")
+				e.logf("registered callback %d", sc.Callbacks+j)
+			}
 		})
+	}
+
+	// registered(lo): callbacks whose registration was complete at seq; registered(hi): ... had begun at seq
+	regBounds := func(rec *invRec) (lo, hi int) {
+		lo, hi = sc.Callbacks, sc.Callbacks
+
+		for _, rr := range regs {
+			if rr.done < rec.inv {
+				lo++
+			}
+
+			if rr.start < rec.ret {
+				hi++
+			}
+		}
+
+		return lo, hi
 	}
 
 	for ci := range sc.Clients {
@@ -1062,16 +1126,21 @@ func runInvalidator(e *env) {
 	var accepted []*invRec
 
 	for _, rec := range recs {
+		lo, hi := regBounds(rec)
+
 		switch {
-		case sc.Callbacks == 0:
+		case hi == 0:
 			if !errors.Is(rec.err, cache.ErrNothingToInvalidate) {
 				out.violate("C17.R5", "no-callbacks", "no callbacks registered, Invalidate returned %v instead of ErrNothingToInvalidate", rec.err)
 			}
+		case lo == 0 && errors.Is(rec.err, cache.ErrNothingToInvalidate):
+			// the first registration was in progress during the call: either answer is right
+			out.probe("invalidate_during_first_registration")
 		case rec.err == nil:
 			accepted = append(accepted, rec)
 
-			if len(rec.cbs) != sc.Callbacks {
-				out.violate("C17.R3", "callbacks-run", "accepted Invalidate ran %d of %d callbacks", len(rec.cbs), sc.Callbacks)
+			if min1 := max(lo, 1); len(rec.cbs) < min1 || len(rec.cbs) > hi {
+				out.violate("C17.R3", "callbacks-run", "accepted Invalidate ran %d callbacks, %d were registered when it was invoked and %d when it returned", len(rec.cbs), lo, hi)
 			}
 
 			for n, cb := range rec.cbs {
@@ -1135,7 +1204,7 @@ func runInvalidator(e *env) {
 	// R6: a rejection needs a reason. ErrAlreadyInvalidated says that an invalidation ran less than SkipInterval
 	// ago: some accepted call must have started before the rejected one returned, and at most SkipInterval
 	// (plus the same slack) before the rejected one was invoked.
-	if sc.Callbacks > 0 {
+	if sc.Callbacks+sc.Late > 0 {
 		for _, rec := range recs {
 			if rec.err == nil || !errors.Is(rec.err, cache.ErrAlreadyInvalidated) {
 				continue
